@@ -118,6 +118,10 @@ fn enabled(net: &Net) -> Vec<String> {
             v.push(format!("report {n} {v_}"));
         }
     }
+    // gossip tells node n that the other node is no longer its neighbour (a session may be running)
+    for n in 0..2 {
+        v.push(format!("ndown {n}"));
+    }
     for n in 0..2 {
         if net.ctasks[n].iter().any(|t| t.0 == CPhase::Requesting) {
             v.push(format!("deliver {n}"));
@@ -150,7 +154,7 @@ impl Property for C11 {
         false
     }
     fn rule(&self) -> String {
-        "schedules of 4-40 scheduler actions over two real live actors and one document (both syncing, or one of them not): dial decisions (new neighbour / sync report) by either node, sync reports handled by the real on_sync_report (heads older, equal, newer than the entry held, an unknown author (also with timestamp 0), no heads, undecodable bytes; dial exactly on news), delivery or loss of the oldest outstanding request, processing of connect-task completions (declined AlreadySyncing / NotFound, failed to connect, session end ok or failed), of accept-task completions (ok, session failed, connection lost while closing) and of declined-accept completions, each chosen among the currently enabled actions; dials are weighted down so that completions catch up; non-trivial = at least 2 dials and one session or one decline; distinct = distinct concrete schedules".into()
+        "schedules of 4-40 scheduler actions over two real live actors and one document (both syncing, or one of them not): dial decisions (new neighbour / sync report) by either node, sync reports handled by the real on_sync_report (heads older, equal, newer than the entry held, an unknown author (also with timestamp 0), no heads, undecodable bytes; dial exactly on news), delivery or loss of the oldest outstanding request, loss of the gossip neighbour (also while a session with it runs), processing of connect-task completions (declined AlreadySyncing / NotFound, failed to connect, session end ok or failed), of accept-task completions (ok, session failed, connection lost while closing) and of declined-accept completions, each chosen among the currently enabled actions; dials are weighted down so that completions catch up; non-trivial = at least 2 dials and one session or one decline; distinct = distinct concrete schedules".into()
     }
     fn corpus(&self) -> Vec<(String, Vec<Op>)> {
         let acts = |v: &[&str]| -> Vec<Op> {
@@ -168,6 +172,8 @@ impl Property for C11 {
             // session still runs; later the acceptor dials too
             ("redial-while-accept-task-runs".into(), acts(&["dial 0 0", "deliver 0", "cc 0 0", "dial 0 0", "deliver 0", "ca 1 0", "dial 1 0", "deliver 1", "cc 0 0", "cd 1", "cc 1 0", "ca 0 1"])),
             ("redial-while-accept-task-runs-b".into(), acts(&["dial 1 0", "deliver 1", "cc 1 0", "dial 1 0", "deliver 1", "ca 0 0", "dial 0 0", "deliver 0", "cc 1 0", "cd 0", "cc 0 0", "ca 1 1"])),
+            // a neighbour is lost while a session with it runs, and while a refused report waits for its follow-up
+            ("neighbor-down-during-session".into(), acts(&["dial 0 0", "deliver 0", "ndown 1", "dial 0 0", "deliver 0", "cd 1", "cc 0 1", "dial 0 1", "ndown 0", "cc 0 0", "ca 1 0"])),
             ("refused-report-follow-up".into(), acts(&["dial 0 0", "deliver 0", "dial 0 1", "dial 0 1", "cc 0 0", "ca 1 0", "deliver 0", "cc 0 0", "ca 1 1"])),
             // the node that does not sync was asked to sync the document before it existed there
             ("failed-start-sync-is-not-syncing".into(), {
@@ -257,7 +263,7 @@ impl Property for C11 {
                     Op::Choose { k } => {
                         let en = enabled(&net);
                         // weigh dials down: 4 dial actions are always enabled
-                        let non_dials: Vec<&String> = en.iter().filter(|a| !a.starts_with("dial") && !a.starts_with("report")).collect();
+                        let non_dials: Vec<&String> = en.iter().filter(|a| !a.starts_with("dial") && !a.starts_with("report") && !a.starts_with("ndown")).collect();
                         if !non_dials.is_empty() && k % 3 != 0 {
                             non_dials[(k / 3) % non_dials.len()].clone()
                         } else {
@@ -291,6 +297,10 @@ impl Property for C11 {
                         let bytes = if v == 5 { vec![0xFF, 0xFF, 0xFF] } else { h.encode(None)? };
                         nodes[n].coord.on_sync_report(ids[other], nsid, bytes).await;
                         report_spec = Some((tok, news));
+                    }
+                    "ndown" => {
+                        // `NeighborDown`: an event for the subscribers, nothing else
+                        nodes[n].coord.neighbor_down(nsid, ids[other]).await?;
                     }
                     "dial" => {
                         let reason = if t[2] == "1" { SyncReason::SyncReport } else { SyncReason::NewNeighbor };
@@ -422,6 +432,8 @@ impl Property for C11 {
                 let model_act = match &report_spec {
                     Some((_, true)) => Some(format!("dial {n} 1")),
                     Some((_, false)) => None,
+                    // the protocol model has no step for a lost neighbour: nothing may change
+                    None if t[0] == "ndown" => None,
                     None => Some(act.clone()),
                 };
                 if let Some(a) = model_act {
